@@ -37,7 +37,7 @@ inductive Member where
   | local_ (kind : VarKind) (exported : Bool) (name : String) (init : Option Expr)
   | func (exported : Bool) (name : String) (body : Expr)
   /-- `dotted`: written `namespace Parent.name { … }` (only meaningful for the single exported member of a
-      namespace; the parser treats both spellings alike except for one point, see Impl/TsNs.lean) -/
+      namespace; the parser treats both spellings alike) -/
   | ns (exported : Bool) (dotted : Bool) (name : String) (body : List Member)
   | enum_ (exported : Bool) (name : String) (members : List (String × Option Expr))
   | expr (e : Expr)
